@@ -409,9 +409,15 @@ def parseKeyText (ops : KeyOps K) (tap : Bool) (k : Str) : Option (KeyVal K × B
     if mid = ['p', 'u', 'b'] || mid = ['p', 'r', 'v'] then (ops.parseXkey k).map fun key => (.obj key, false)
     else (ops.parseWif k).map fun key => (.obj key, false)
 
-/-- `KeyHash.parse_key` -/
+/-- `KeyHash.parse_key` (after fix keyhash-raw-hex: a 40-character argument is a raw hash only if `unhexlify`
+    takes it — both cases of hex digits; anything else raises ArgumentError instead of being stored and failing
+    later in `serialize()`) -/
 def parseKeyHashText (ops : KeyOps K) (tap : Bool) (k : Str) : Option (KeyVal K × Bool) :=
-  if k.length = 40 then some (.raw k, false) else parseKeyText ops tap k
+  if k.length = 40 then
+    (match unhexlify k with
+      | some _ => some (.raw k, false)
+      | none => none)
+  else parseKeyText ops tap k
 
 /-- `hasattr(key, "derive")` -/
 def KeyVal.hasDerive (ops : KeyOps K) : KeyVal K → Bool
